@@ -38,7 +38,7 @@ def sessions(tier, seed):
         for k, seq in enumerate(container.all_op_sequences(alpha, maxlen)):
             if codec_name != "null" and len(seq) == maxlen and k % 3:
                 continue        # compressed codecs: a third of the longest sequences
-            ops = [json.loads(json.dumps(alpha[c])) for c in seq] + [{"op": "into_inner"} if k % 2 == 0 else {"op": "drop"}]
+            ops = [json.loads(json.dumps(alpha[c])) for c in seq] + [{"op": ("into_inner", "drop", "into_inner", "drop_panicking")[k % 4]}]
             meta = [[container.T("user.key"), [1, 2, 3]]] if k % 5 == 0 else []
             cmds.append(container.writer_cmd(G, codec_name, approx, ops, meta=meta, cid=len(cmds)))
     # fields presented out of schema order (they go through the pooled side buffers): a fitting value, and values that fail INSIDE an
@@ -121,7 +121,7 @@ def random_sessions(rng, n, G):
                 ops.append({"op": "push", "bytes": [b for v in vs for b in pyavro.encode(G, 1, v)], "n": len(vs)})
             else:
                 ops.append({"op": "finish"})
-        ops.append({"op": rng.choice(["into_inner", "drop"])})
+        ops.append({"op": rng.choice(["into_inner", "drop", "drop_panicking"])})
         cmds.append(container.writer_cmd(G, rng.choice(container.CODECS), rng.choice([0, 1, 7, 16, 64, 200, 100000]), ops,
                                          meta=[[container.T(f"k{j}"), [j]] for j in range(rng.randrange(3))], cid=i))
     return cmds
